@@ -73,7 +73,14 @@ impl SLIT {
 
         self.entries[domain_a + self.localities as usize * domain_b] = locality_value;
         self.entries[domain_b + self.localities as usize * domain_a] = locality_value;
-        self.update_header(&old_values, locality_value);
+        if domain_a == domain_b {
+            // a diagonal cell is its own mirror image: account for it once
+            self.checksum.delete(&old_values[..1]);
+            self.checksum.append(&[locality_value]);
+            self.header.checksum = self.checksum.value();
+        } else {
+            self.update_header(&old_values, locality_value);
+        }
     }
 }
 
